@@ -13,6 +13,7 @@ import BleveModel.Drv.C20
 import BleveModel.Drv.Snap
 import BleveModel.Drv.C04
 import BleveModel.Drv.C03
+import BleveModel.Drv.C12
 
 open Bleve.Proto
 
@@ -47,6 +48,7 @@ def main (args : List String) : IO UInt32 := do
   | ["c01"] => loopS stdin stdout ({} : Bleve.IndexSpec.Spec) Bleve.Drv.C01.step; stdout.flush; return 0
   | ["c13"] => loopS stdin stdout ({} : Bleve.IndexSpec.Spec) Bleve.Drv.C13.step; stdout.flush; return 0
   | ["c03"] => loopS stdin stdout ({} : Bleve.Drv.C03.S) Bleve.Drv.C03.step; stdout.flush; return 0
+  | ["c12"] => loopS stdin stdout ({} : Bleve.Drv.C12.S) Bleve.Drv.C12.step; stdout.flush; return 0
   | ["c04"] => loopS stdin stdout ({} : Bleve.Drv.C04.S) Bleve.Drv.C04.step; stdout.flush; return 0
   | ["c15"] => loopS stdin stdout ({} : Bleve.Drv.C15.S) Bleve.Drv.C15.step; stdout.flush; return 0
   | _ => IO.eprintln "usage: drv <driver>"; return 2
